@@ -159,8 +159,8 @@ pub struct Case {
 	pub flow: Flow,
 	/// bit positions (scaled onto the stream length) flipped in every signed stream of the case
 	pub flips: Vec<u32>,
-	/// flip every bit of every signed stream
-	pub flip_all: bool,
+	/// flip every bit of one signed stream of the case (1: the first one built, 2: the last one; 0: none)
+	pub flip_all: u8,
 	pub structural: Vec<Alter>,
 	pub offer_alter: Vec<Alter>,
 }
@@ -309,7 +309,7 @@ pub fn strat(flips: usize, flip_all_permille: u32) -> impl Strategy<Value = Case
 		(pvec(any::<u8>(), 16), pvec(any::<u8>(), 16), pvec(any::<u8>(), 16)),
 		offer_spec(),
 		flow(),
-		(pvec(any::<u32>(), flips..=flips), (0u32..1000).prop_map(move |r| r < flip_all_permille), pvec(alter(), 6..=6), pvec(alter(), 4..=4)),
+		(pvec(any::<u32>(), flips..=flips), (0u32..1000, 1u8..=2).prop_map(move |(r, w)| if r < flip_all_permille { w } else { 0 }), pvec(alter(), 6..=6), pvec(alter(), 4..=4)),
 	)
 		.prop_map(|((r_node, r_ek, p_node, p_ek, other_ek), (nonce_o, nonce_p, nonce_x), mut offer, mut flow, (flips, flip_all, structural, offer_alter))| {
 			// construction over rejection: shape the offer so that the chosen flow is buildable
@@ -746,6 +746,12 @@ impl Kind {
 /// Oracle (e): every single-bit change of a signed stream must be rejected; structural changes
 /// must be rejected unless the signed content (reference merkle root) is unchanged.
 fn tamper_signed(c: &Case, kind: Kind, bytes: &[u8], root: [u8; 32], ctx: &mut Ctx, evals: &mut u64, in_signed: &mut u64) -> CaseResult {
+	// which signed stream of the flow this is: the request is the first, an invoice after a request the second
+	let sweep = match (c.flip_all, kind, &c.flow) {
+		(0, _, _) => false,
+		(1, Kind::Invoice, Flow::Request { .. }) | (2, Kind::Request, _) => false,
+		_ => true,
+	};
 	let recs = rc::tlv_parse(bytes).expect("checked before");
 	// byte ranges of signature-range records (the only bytes a signature does not cover)
 	let mut sig_ranges = vec![];
@@ -776,7 +782,7 @@ fn tamper_signed(c: &Case, kind: Kind, bytes: &[u8], root: [u8; 32], ctx: &mut C
 			},
 		}
 	};
-	if c.flip_all {
+	if sweep {
 		ctx.label(&format!("e:{} all bits flipped", kind.name()));
 		for bit in 0..nbits {
 			flip(bit, ctx)?;
@@ -1515,17 +1521,25 @@ pub struct SubsecCase {
 	pub base: Case,
 	pub expiry_nanos: u32,
 	pub created_nanos: u32,
+	/// true: sub-second offer expiry; false: sub-second invoice creation time
+	pub offer_side: bool,
 }
 
 pub fn strat_subsec() -> impl Strategy<Value = SubsecCase> + Clone + Send + Sync + 'static {
-	(strat(0, 0), 1u32..1_000_000_000, 1u32..1_000_000_000).prop_map(|(mut base, expiry_nanos, created_nanos)| {
+	(strat(0, 0), 1u32..1_000_000_000, 1u32..1_000_000_000, any::<bool>()).prop_map(|(mut base, expiry_nanos, created_nanos, offer_side)| {
 		base.offer.derived = false;
 		base.offer.metadata = None;
 		let e = base.offer.expiry.unwrap_or(FAR_FUTURE);
 		base.offer.expiry = Some(if e < FAR_FUTURE { FAR_FUTURE + e % FAR_FUTURE } else { e.min(u64::MAX - 1) });
 		base.structural.clear();
 		base.offer_alter.clear();
-		SubsecCase { base, expiry_nanos, created_nanos }
+		if !offer_side && !matches!(base.flow, Flow::Request { .. }) {
+			base.flow = Flow::Request {
+				req: ReqSpec { chain_pick: 0, set_chain: false, amount_extra: Some(5), qty_pick: 1, payer_note: None, payment_id: vec![7; 32] },
+				inv: InvSpec { paths: vec![PayPath { path: MsgPath { intro: 1, scid: None, blinding: 2, hops: vec![(3, vec![4; 10])] }, fee_base: 1, fee_prop: 2, cltv: 3, hmin: 4, hmax: 5 }], payment_hash: vec![1; 32], created_at: 1_700_000_000, rel_expiry: None, fallbacks: vec![], mpp: 0 },
+			};
+		}
+		SubsecCase { base, expiry_nanos, created_nanos, offer_side }
 	})
 }
 
@@ -1536,7 +1550,7 @@ pub fn strat_subsec() -> impl Strategy<Value = SubsecCase> + Clone + Send + Sync
 pub fn oracle_subsec(sc: &SubsecCase, ctx: &mut Ctx) -> CaseResult {
 	let c = &sc.base;
 	let node = key(c.r_node).1;
-	let exp = Duration::new(c.offer.expiry.unwrap(), sc.expiry_nanos);
+	let exp = Duration::new(c.offer.expiry.unwrap(), if sc.offer_side { sc.expiry_nanos } else { 0 });
 	let mut spec = c.offer.clone();
 	spec.expiry = None;
 	let offer = match apply_offer(OfferBuilder::new(node).absolute_expiry(exp), &spec) {
@@ -1564,7 +1578,7 @@ pub fn oracle_subsec(sc: &SubsecCase, ctx: &mut Ctx) -> CaseResult {
 		)
 		.with_key("b12/subsecond/offer-absolute-expiry"));
 	}
-	if let Flow::Request { req, inv } = &c.flow {
+	if let (false, Flow::Request { req, inv }) = (sc.offer_side, &c.flow) {
 		let request = match build_request(&offer, c, req, &ek(c.p_ek)) {
 			Ok(r) => r,
 			Err(e) => vfail!("builder-rejects-valid-input", "{}", e),
